@@ -45,6 +45,10 @@ def contracts():
     cs += [c for c in C09.contracts() if c.label in ('matching._handle_dict',)]
     cs += [c for c in C02.contracts() if c.label == 'core._t_eval']
     cs += [c for c in C04.contracts() if c.label in ('core.glom[scope]', 'core.glom[none]')]
+    # a Pipe is its own chain: it evaluates exactly the steps it was given (a nested Pipe is one step with its own chained scopes)
+    from contracts import X_ctor
+    cs += [c for c in C03.contracts() if c.label == 'core.Pipe.glomit']
+    cs += common.shared(X_ctor, ['core.Pipe.__init__', 'core.Let.__init__', 'core.Spec.__init__'])
     return cs
 
 
